@@ -53,6 +53,8 @@ REPLACEMENTS = [
 ]
 
 TARGETED = [
+    # bases whose powers never grow, under exponents of any magnitude (what is computed is trivial; what is *estimated* about it may not be)
+    "1 ** 1e400", "(-1) ** 1e310", "1 ** -1e400", "0 ** 1e400", "{1, -1} ** 1e310", "1 ** (1e400 + 1)", "(-1) ** (1e400 + 1)", "1 ** 1e4000", "(1/1) ** -1e1000", "1 ** 1.5e400",
     "(-1) ** (1/2)", "(-8) ** (1/3)", "10.5 ** 1000.5", "(10 ** 400) ** 0.5", "2 ** 0.5", "0 ** 0", "0 ** -1", "0 ** (-1/2)", "(1/3) ** (1/3)", "2 ** 1e3", "2 ** -1e3", "10 ** 4000",
     "10 ** 5000", "1e4299", "1e4300", "1e5000", "-1e5000", "1e-5000", "1 / 1e5000", "1e5000 - 1e5000", "1e5000 / 1e4999", "1e99999", "'\\U00110000'", "'\\UFFFFFFFF'", "'\\ud800'",
     "'\\udfff' + '\\ud800'", "'\\u12'", "'\\x41'", "'\\", "'\\q'", "\"\\N\"", "1 % 0", "1 / 0", "{1} / 0", "0 / {0}", "{1, 2} % {1}", "{} | {}", "{1, 'a'}", "{{1}, {'a'}}", "{{1}, {2}}.min",
@@ -71,7 +73,7 @@ SINKS = ["Svc.1.0 svc\n@print {e}", "Svc.1.0[<=2] svcs\n@print _offset_ == {e}",
 CORNER_BASES = ["{1, 2} & {3, 4}", "{1, 2} ^ {2, 1}", "{'a'} & {'b'}", "{1} & {2} | {3} & {4}", "{true} ^ {true}", "({1} | {2}) & {3}", "{1, 2} & {2, 3}", "{1/2} ^ {0.5}",
                 "{1e5000} & {1}", "{{1}} & {{2}}", "{}", "{1}", "{'a', 'b'}", "{true, false}", "1", "'a'", "true", "1/3", "1e5000", "Dep.1.0", "uint8", "_offset_", "Dep.1.0._bit_length_"]
 CORNER_WRAPS = ["(%s).min", "(%s).max", "(%s).count", "(%s) + 1", "1 - (%s)", "(%s) == (%s)", "{%s}", "(%s) | (%s)", "(%s) & {1}", "!(%s)", "-(%s)", "(%s) ** 2", "(%s) % 0", "(%s) < (%s)",
-                "(%s) * {2}", "(%s).min.max", "(%s) + 'x'", "(%s) / (%s)", "(%s) || true"]  # (no "2 ** (%s)": a tower over 1e5000 is a legitimate endless computation)
+                "(%s) * {2}", "(%s).min.max", "(%s) + 'x'", "(%s) / (%s)", "(%s) || true", "1 ** (%s)", "(-1) ** (%s)"]  # (no "2 ** (%s)": a tower over 1e5000 is a legitimate endless computation)
 
 
 def corner_expression(base: int, wraps: typing.Sequence[int]) -> str:
